@@ -124,7 +124,9 @@ func runC15(c *Ctx) {
 			_ = call
 		}
 		// R15.4 nil guards
-		isIface := func(v *ssa.Parameter) bool { return strings.HasPrefix(typeStr(v.Type()), "io.") || typeStr(v.Type()) == "interface{}" || typeStr(v.Type()) == "any" }
+		isIface := func(v *ssa.Parameter) bool {
+			return strings.HasPrefix(typeStr(v.Type()), "io.") || typeStr(v.Type()) == "interface{}" || typeStr(v.Type()) == "any"
+		}
 		if strings.Contains(cd.outer, "ByteStream") || strings.Contains(cd.outer, "TextProducer") || strings.Contains(cd.outer, "TextConsumer") {
 			for _, prm := range []*ssa.Parameter{stream, data} {
 				if !isIface(prm) {
